@@ -142,3 +142,10 @@ CASES += [
     {"name": "stored dictionaries copied with the copy method", "kind": "twin", "edits": [
         (S, "            prms = dict(prms)\n            if temperature is not None:", "            prms = prms.copy()\n            if temperature is not None:", 1)]},
 ]
+
+CASES += [
+    {"name": "FT correlation function with a shorter table of energy parameters (the repaired defect)", "kind": "mutant", "rule": "C09-E", "edits": [
+        ("quantarhei/qm/corfunctions/correlationfunctions.py", "    energy_params = CorrelationFunction.energy_params\n", "    energy_params = (\"reorg\", \"omega\", \"freq\")\n", 1)]},
+    {"name": "spectral density forgets gamma", "kind": "mutant", "rule": "C09-E", "edits": [
+        ("quantarhei/qm/corfunctions/spectraldensities.py", "                     \"freq1\", \"freq2\", \"gamma\")", "                     \"freq1\", \"freq2\")", 1)]},
+]
